@@ -406,33 +406,64 @@ Definition wc_export (c : wcont) : list Z := if w_kind c =? kGlobal then [] else
 
 (* ChunkToSave(c, dst): sections, the six height maps each under its own key, status.  StateList[v]
    with v out of range is a run-time panic; an invalid biome id an error *)
+Definition to_save_sec (ypos : Z) (i : nat) (s : sect wcont) : sres ssect :=
+  match opt_all (map st_name (wc_export (s_states s))) with
+  | None => SPanic pOOB
+  | Some bp =>
+      match opt_all (map bio_name (wc_export (s_biomes s))) with
+      | None => SErr
+      | Some biop =>
+          SOk (mkSS (sx8 (u8 (Z.of_nat i + ypos))) bp (data (w_data (s_states s)))
+                    biop (data (w_data (s_biomes s))) (s_sky s) (s_blk s))
+      end
+  end.
+Fixpoint to_save_secs (ypos : Z) (i : nat) (ss : list (sect wcont)) : sres (list ssect) :=
+  match ss with
+  | [] => SOk []
+  | s :: t => match to_save_sec ypos i s with
+              | SOk x => match to_save_secs ypos (S i) t with SOk r => SOk (x :: r) | SErr => SErr | SPanic w => SPanic w end
+              | SErr => SErr | SPanic w => SPanic w
+              end
+  end.
 Definition to_save (c : wchunk) (dst : schunk) : sres schunk :=
-  let mk (i : nat) (s : sect wcont) : sres ssect :=
-    match opt_all (map st_name (wc_export (s_states s))) with
-    | None => SPanic pOOB
-    | Some bp =>
-        match opt_all (map bio_name (wc_export (s_biomes s))) with
-        | None => SErr
-        | Some biop =>
-            SOk (mkSS (sx8 (u8 (Z.of_nat i + sc_ypos dst))) bp (data (w_data (s_states s)))
-                      biop (data (w_data (s_biomes s))) (s_sky s) (s_blk s))
-        end
-    end in
-  let fix go (i : nat) (ss : list (sect wcont)) : sres (list ssect) :=
-    match ss with
-    | [] => SOk []
-    | s :: t => match mk i s with
-                | SOk x => match go (S i) t with SOk r => SOk (x :: r) | SErr => SErr | SPanic w => SPanic w end
-                | SErr => SErr | SPanic w => SPanic w
-                end
-    end in
-  match go O (c_secs c) with
+  match to_save_secs (sc_ypos dst) O (c_secs c) with
   | SErr => SErr | SPanic w => SPanic w
   | SOk secs =>
       let h := c_hm c in
       let m := hm_set kMBNL (raw_of (hMBNL h)) (hm_set kMB (raw_of (hMB h)) (hm_set kOF (raw_of (hOF h))
                (hm_set kOFWG (raw_of (hOFWG h)) (hm_set kWS (raw_of (hWS h)) (hm_set kWSWG (raw_of (hWSWG h)) (sc_hm dst)))))) in
       SOk (mkSC secs m (c_status c) (sc_ypos dst))
+  end.
+
+(* resolveIndirect (since fix 6364be8): save data whose palette has more entries than the widest indirect
+   palette: indices of bits.Len(len(pat)-1) bits are resolved into directly stored ids *)
+Fixpoint resolve_loop (pat : list Z) (idx direct : bstore) (is : list Z) : sres bstore :=
+  match is with
+  | [] => SOk direct
+  | i :: t =>
+      match snd (bs_get idx i) with
+      | ORet k =>
+          if ((k <? 0) || (Z.of_N (lenN pat) <=? k))%Z then SPanic pRt          (* pat[k] *)
+          else match bs_set direct i (nth (Z.to_nat k) pat 0%Z) with
+               | (d', OUnit) => resolve_loop pat idx d' t
+               | (_, OPanic w) => SPanic w
+               | (_, _) => SPanic pRt
+               end
+      | OPanic w => SPanic w
+      | _ => SPanic pRt
+      end
+  end.
+Definition resolve (length : Z) (dat : list N) (pat : list Z) (dbits : Z) : sres (list N) :=
+  match bs_new (bitlen (Z.of_N (lenN pat) - 1)) length (Some dat) with
+  | RPanic w => SPanic w
+  | ROk idx =>
+      match bs_new dbits length None with
+      | RPanic w => SPanic w
+      | ROk direct =>
+          match resolve_loop pat idx direct (map Z.of_nat (seq 0 (Z.to_nat length))) with
+          | SOk d => SOk (data d) | SErr => SErr | SPanic w => SPanic w
+          end
+      end
   end.
 
 (* New{States,Biomes}PaletteContainerWithData(length, data, pat) *)
@@ -449,9 +480,16 @@ Definition with_data (biome : bool) (length : Z) (dat : list N) (pat : list Z) :
       if (k =? kSingle) && (match pat with [] => true | _ => false end) then SPanic pRt      (* pat[0] *)
       else
         let pal := if k =? kSingle then [hd 0%Z pat] else if k =? kGlobal then [] else pat in
-        match bs_new (cfg_bits biome (if biome then gb else gs) n) length (Some dat) with
-        | ROk st => SOk (mkWC n k pal st)
-        | RPanic w => SPanic w
+        let g := if biome then gb else gs in
+        let dat' := if (k =? kGlobal) && ((if biome then 8 else 256) <? Z.of_N (lenN pat))%Z
+                    then resolve length dat pat g else SOk dat in
+        match dat' with
+        | SErr => SErr | SPanic w => SPanic w
+        | SOk d =>
+            match bs_new (cfg_bits biome g n) length (Some d) with
+            | ROk st => SOk (mkWC n k pal st)
+            | RPanic w => SPanic w
+            end
         end
   end.
 
@@ -494,20 +532,21 @@ Definition new_hm_save (nsec : N) (raw : option (list N)) : sres (option bstore)
   | RPanic w => SPanic w
   end.
 
+Fixpoint from_save_secs (ypos secs : Z) (vs : list ssect) (acc : list (option (sect wcont)))
+  : sres (list (option (sect wcont))) :=
+  match vs with
+  | [] => SOk acc
+  | v :: t =>
+      let i := (sx32 (u32 (ss_y v - ypos)))%Z in
+      if ((i <? 0) || (secs <=? i))%Z then SErr
+      else match from_save_sec v with
+           | SErr => SErr | SPanic w => SPanic w
+           | SOk s => from_save_secs ypos secs t (upd_at acc (Z.to_nat i) (Some s))
+           end
+  end.
 Definition from_save (c : schunk) : sres (list (option (sect wcont)) * hmaps * list N) :=
   let secs := Z.of_N (lenN (sc_secs c)) in
-  let fix go (vs : list ssect) (acc : list (option (sect wcont))) : sres (list (option (sect wcont))) :=
-    match vs with
-    | [] => SOk acc
-    | v :: t =>
-        let i := (sx32 (u32 (ss_y v - sc_ypos c)))%Z in
-        if ((i <? 0) || (secs <=? i))%Z then SErr
-        else match from_save_sec v with
-             | SErr => SErr | SPanic w => SPanic w
-             | SOk s => go t (upd_at acc (Z.to_nat i) (Some s))
-             end
-    end in
-  match go (sc_secs c) (repeat None (length (sc_secs c))) with
+  match from_save_secs (sc_ypos c) secs (sc_secs c) (repeat None (length (sc_secs c))) with
   | SErr => SErr | SPanic w => SPanic w
   | SOk ss =>
       let n := lenN (sc_secs c) in
